@@ -28,6 +28,7 @@ def run(ctx):
                    "c: compute_next_steps builds a fresh State, stores into shared flow configuration only under keys nobody reads, writes no module globals"]
     ctx.not_decided = ["the replay semantics of compute_next_state itself (matching of intents, priorities)"]
     offsets(ctx, "C14.a")
+    post_passes(ctx, "C14.a.post-pass")
     key_agreement(ctx, "C14.a.keys")
     b_opcodes(ctx)
     c_no_mutation(ctx)
@@ -95,24 +96,32 @@ def offsets(ctx, rule):
         ctx.check(rule + ".offsets", COYML, "_extract_elements[if]", "raw blocks removed (%s)" % label, "then" not in ifel.fields and "else" not in ifel.fields,
                   "the raw then/else lists are deleted from the emitted `if` element", line=line["if"])
     # ---- while ----
-    lay, env, dec, it = emit1.run_case(cases["while"], "while")
-    items = lay.items
-    wel = [x for x in items if isinstance(x, El) and x.fields.get("_type") == "while"][0]
-    segN = [x for x in items if isinstance(x, Seg) and x.name == "N"]
-    jumps = [x for x in items if isinstance(x, El) and x.fields.get("_type") == "jump"]
-    if len(segN) != 1 or len(jumps) != 1:
-        raise AnalysisError("emit1: while layout is not [while, body, jump]: %s" % items)
-    p_w, p_b, p_j = lay.position(wel), lay.position(segN[0]), lay.position(jumps[0])
-    ctx.check(rule + ".offsets", COYML, "_extract_elements[while]", "body follows the while", p_b == p_w + 1 and p_j == p_b + segN[0].length and _end(lay) == p_j + 1,
-              "layout is [while, body, back-jump] (true => head + 1 enters the body)", line=line["while"])
-    ident("while._next_on_break", wel.fields.get("_next_on_break"), _end(lay) - p_w, "loop exit", "_extract_elements[while]", line["while"])
-    ident("back-jump._next", jumps[0].fields.get("_next"), p_w - p_j, "re-check condition", "_extract_elements[while]", line["while"])
-    fa = segN[0].forall
-    j = Aff.sym("j")
-    ident("body[j]._next_on_break", fa.get("_next_on_break"), _end(lay) - (p_b + j), "for all 0 <= j < N", "_extract_elements[while]", line["while"])
-    ident("body[j]._next_on_continue", fa.get("_next_on_continue"), p_w - (p_b + j), "for all 0 <= j < N", "_extract_elements[while]", line["while"])
-    ctx.check(rule + ".offsets", COYML, "_extract_elements[while]", "inner loops keep their own offsets", segN[0].guard_key == "_next_on_break",
-              "body elements that already carry `_next_on_break` (elements of an inner loop) are not overwritten", line=line["while"])
+    for lay, it, dec in emit1.run_case_all(cases["while"], "while"):
+        label_w = ("decisions %s" % sorted(dec.items())) if dec else "loop"
+        items = lay.items
+        wel = [x for x in items if isinstance(x, El) and x.fields.get("_type") == "while"][0]
+        segN = [x for x in items if isinstance(x, Seg) and x.name == "N"]
+        jumps = [x for x in items if isinstance(x, El) and x.fields.get("_type") == "jump"]
+        if len(segN) != 1:
+            raise AnalysisError("emit1: while layout has no single body block: %s" % items)
+        p_w, p_b = lay.position(wel), lay.position(segN[0])
+        bad0 = len([o for o in ctx.obligations if not o.ok])
+        ident("while._next_on_break", wel.fields.get("_next_on_break"), _end(lay) - p_w, "loop exit; " + label_w, "_extract_elements[while]", line["while"])
+        fa = segN[0].forall
+        j_ = Aff.sym("j")
+        ident("body[j]._next_on_break", fa.get("_next_on_break"), _end(lay) - (p_b + j_), "for all 0 <= j < N; " + label_w, "_extract_elements[while]", line["while"])
+        ident("body[j]._next_on_continue", fa.get("_next_on_continue"), p_w - (p_b + j_), "for all 0 <= j < N; " + label_w, "_extract_elements[while]", line["while"])
+        ctx.check(rule + ".offsets", COYML, "_extract_elements[while]", "inner loops keep their own offsets (%s)" % label_w, segN[0].guard_key == "_next_on_break",
+                  "body elements that already carry `_next_on_break` (elements of an inner loop) are not overwritten", line=line["while"])
+        if len(jumps) != 1:
+            if len([o for o in ctx.obligations if not o.ok]) == bad0:
+                # offsets are consistent with this layout, but the layout itself is not the one this analysis understands
+                raise AnalysisError("emit1: while layout is not [while, body, jump] under %s: %s" % (label_w, items))
+            continue
+        p_j = lay.position(jumps[0])
+        ctx.check(rule + ".offsets", COYML, "_extract_elements[while]", "body follows the while (%s)" % label_w, p_b == p_w + 1 and p_j == p_b + segN[0].length and _end(lay) == p_j + 1,
+                  "layout is [while, body, back-jump] (true => head + 1 enters the body)", line=line["while"])
+        ident("back-jump._next", jumps[0].fields.get("_next"), p_w - p_j, "re-check condition; " + label_w, "_extract_elements[while]", line["while"])
     # ---- branch ----
     ks = (1, 2, 3, 4) if ctx.thorough else (1, 2)
     for k in ks:
@@ -147,6 +156,100 @@ def offsets(ctx, rule):
     d2e = find_function(t, "_dict_to_element")
     ok = d2e is not None and re.search(r"\{'_type':'jump','_next':'-1','_absolute':True\}", re.sub(r"\s", "", src(d2e))) is not None
     ctx.check(rule + ".offsets", COYML, "_dict_to_element", "return", ok, "`return` is an absolute jump to -1, which slide treats as end of flow (head < 0)", line=(d2e.lineno if d2e else 1))
+
+
+def post_passes(ctx, rule):
+    """Relative offsets are final once _extract_elements returns.  Every later pass of parse_flow_elements must keep each element at its index:
+    it either edits the list's elements in place (never the list), or rebuilds the list with exactly one output element per input element."""
+    from ..pycfg import build
+    t = ctx.tree.ast(COYML)
+    pf = find_function(t, "parse_flow_elements")
+    if pf is None:
+        raise AnalysisError("parse_flow_elements not found", anchor=COYML + "::parse_flow_elements")
+    calls = []
+    seen_extract = False
+    for st in pf.body:
+        for c in [c for c in ast.walk(st) if isinstance(c, ast.Call) and isinstance(c.func, ast.Name)]:
+            if c.func.id == "_extract_elements":
+                seen_extract = True
+            elif seen_extract and find_function(t, c.func.id) is not None:
+                calls.append(c)
+        if seen_extract and isinstance(st, (ast.Assign, ast.AugAssign, ast.Expr)) and not any(isinstance(c, ast.Call) for c in ast.walk(st)) and "elements" in src(st):
+            ctx.check(rule, COYML, "parse_flow_elements", first_line(st), False, "the compiled list is modified inline after the offsets were computed", line=st.lineno)
+    if not seen_extract:
+        raise AnalysisError("parse_flow_elements no longer calls _extract_elements", anchor=COYML + "::parse_flow_elements")
+    ctx.floor(rule, COYML, "passes after _extract_elements", len(calls), 2)
+    LIST_MUT = {"append", "extend", "insert", "pop", "remove", "clear", "sort", "reverse"}
+    for c in calls:
+        fn = find_function(t, c.func.id)
+        param = fn.args.args[0].arg
+        problems = []
+        # (1) the input list itself is never restructured
+        for n in walk_no_nested(fn):
+            if isinstance(n, ast.Call) and isinstance(n.func, ast.Attribute) and n.func.attr in LIST_MUT and src(n.func.value) == param:
+                problems.append((n.lineno, "`%s` changes the length/order of the compiled list" % first_line(n)))
+            if isinstance(n, ast.Delete):
+                for x in n.targets:
+                    if isinstance(x, ast.Subscript) and src(x.value) == param:
+                        problems.append((n.lineno, "`%s` removes an element of the compiled list" % first_line(n)))
+            if isinstance(n, ast.Assign) and any(isinstance(x, ast.Subscript) and src(x.value) == param and isinstance(x.slice, ast.Slice) for x in n.targets):
+                problems.append((n.lineno, "`%s` replaces a slice of the compiled list" % first_line(n)))
+        # (2) what is returned
+        rets = [n for n in walk_no_nested(fn) if isinstance(n, ast.Return)]
+        outs = set(src(r.value) for r in rets if r.value is not None)
+        how = None
+        if outs == {param}:
+            how = "edits elements in place and returns the same list"
+        elif len(outs) == 1 and list(outs)[0].isidentifier():
+            out = list(outs)[0]
+            inits = [n for n in walk_no_nested(fn) if isinstance(n, ast.Assign) and src(n.targets[0]) == out]
+            loops = [l for l in fn.body if isinstance(l, ast.For) and (re.sub(r"\s", "", src(l.iter)) in ("range(len(%s))" % param, param, "enumerate(%s)" % param))]
+            adds_outside = [n for n in walk_no_nested(fn) if isinstance(n, ast.Call) and isinstance(n.func, ast.Attribute) and n.func.attr in LIST_MUT and src(n.func.value) == out
+                            and not any(_inside(n, l) for l in loops)]
+            if len(inits) != 1 or not isinstance(inits[0].value, ast.List) or inits[0].value.elts or len(loops) != 1 or adds_outside:
+                problems.append((fn.lineno, "the rebuilt list `%s` is not produced by one loop over the input starting from an empty list" % out))
+            else:
+                l = loops[0]
+                cfg = build(fn)
+                hdr = cfg.node_of(l.iter)
+                if hdr is None:
+                    raise AnalysisError("loop header of %s not found in its CFG" % fn.name, anchor=COYML + "::" + fn.name)
+                body_nodes = [m for m in cfg.nodes if m.ast is not None and m is not hdr and _inside(m.ast, l)]
+                appends = [m for m in body_nodes if isinstance(m.ast, ast.Expr) and isinstance(m.ast.value, ast.Call) and isinstance(m.ast.value.func, ast.Attribute)
+                           and src(m.ast.value.func.value) == out]
+                bad_kind = [m for m in appends if m.ast.value.func.attr != "append"]
+                for m in bad_kind:
+                    problems.append((m.ast.lineno, "`%s`: only a single `append` per input element keeps the indices" % first_line(m.ast)))
+                aset = set(appends)
+                # every iteration passes exactly one append: from the header into the body and back to the header
+                entry = [m for m, lab in hdr.succ if _inside(m.ast, l)] if hdr is not None else []
+                for e0 in entry:
+                    # zero appends on some path?
+                    if e0 not in aset and not cfg.must_pass(e0, hdr, aset, include_a=True):
+                        problems.append((l.lineno, "some path through the loop body appends nothing: the element is dropped and every offset that spans it is off by one"))
+                    # two appends on some path?
+                    for a in appends:
+                        after = cfg.reachable([m for m, _ in a.succ], avoid=[hdr])
+                        if any(b in after for b in appends):
+                            problems.append((a.ast.lineno, "a path through the loop body appends more than one element for one input element"))
+                            break
+                exits = [n for n in ast.walk(l) if isinstance(n, (ast.Break, ast.Return))]
+                if exits:
+                    problems.append((exits[0].lineno, "the loop can stop early and truncate the compiled list"))
+                how = "rebuilds the list with exactly one append per input element on every path"
+        else:
+            problems.append((fn.lineno, "returns %s: not recognisably the same or a 1:1 rebuilt list" % sorted(outs)))
+        ok = not problems
+        ctx.check(rule, COYML, fn.name, "index-preserving pass", ok, ("%s %s" % (fn.name, how)) if ok else "; ".join("line %d: %s" % p for p in problems), line=(problems[0][0] if problems else fn.lineno))
+
+
+def _inside(node, anc):
+    p = node
+    while p is not None:
+        if p is anc:
+            return True
+        p = getattr(p, "_parent", None)
+    return False
 
 
 def key_agreement(ctx, rule):
